@@ -507,7 +507,11 @@ func (e *Engine) decide(extra *term.Term, label string) (smt.Result, map[string]
 func (e *Engine) Assert(c *term.Term, label string) {
 	e.AssertLabels[label]++
 	if c.IsTrue() {
+		// decided by constant folding along this path: counted as a
+		// discharged obligation, and separately as trivial
 		e.Trivial++
+		e.Obligations++
+		e.Discharged++
 		return
 	}
 	site := e.site()
